@@ -30,6 +30,11 @@ anything is computed:
   into the suppressible error, `C13.finite_or_error`); `div_by_zero` for completeness
 * `mathOp_add/sub/mul/div/mod`  the same through `execMathOp`; `mathOp_int_float`: an int64 next to a double is converted
   first (`float64(i)`, correctly rounded: `Rounding.ofInt_rounds`) — two roundings, exactly like Go
+* **two integers** (`executeInt64Math`): `no_silent_wrap_binary` — for all int64 `l r` and `op ∈ {+ − * / %}` the result is
+  the exact integer (`exactZ`) exactly when that lies in the int64 range, otherwise the *finite* double that is the
+  correctly rounded operation (`FloatOp`) on `float64(l)`, `float64(r)` — never a wrapped integer; `%` is always exact,
+  `/` leaves the range only for `MinInt64 / -1` (`tdiv_overflow_only`); `ofInt_int64_bound`, `sum_below_threshold`,
+  `prod_below_threshold`, `int_int_result_finite`: the double fallback of two int64 values can never be ±Inf or NaN
 * `Examples`: 0.1 + 0.2 (a tie broken to even!), 2^53 + 1, 5e-324 / 2, the overflow threshold, signed zeros, 1/3.
 
 Not covered: operands that are already `±Inf`/`NaN` (they cannot be items: C05b/`finite_or_error`), `F64.floor/ceil/round`
@@ -282,6 +287,215 @@ theorem mathOp_int_float (i : Int) (b : F64) (op : BinOp) :
     Rounds i 1 (F64.ofInt i) :=
   ⟨rfl, rfl, ofInt_rounds i⟩
 
+/-! ### two integers: the exact integer, or — when that leaves the int64 range — the correctly rounded, finite double
+(`executeInt64Math`; the binary part of D12, repaired in the code) -/
+
+theorem ofInt_two63 : F64.ofInt 9223372036854775808 = .fin false (2 ^ 52) 11 := by decide +kernel
+theorem ofInt_neg_two63 : F64.ofInt (-9223372036854775808) = .fin true (2 ^ 52) 11 := by decide +kernel
+
+/-- `float64(i)` of an int64 is finite, the nearest double, and its value lies in `[−2^63, 2^63]` -/
+theorem ofInt_int64_bound (i : Int) (h : Item.inInt64 i = true) :
+    Nearest i 1 (F64.ofInt i) ∧
+    -(9223372036854775808 * (den (F64.ofInt i) : Int)) ≤ num (F64.ofInt i) ∧
+    num (F64.ofInt i) ≤ 9223372036854775808 * (den (F64.ofInt i) : Int) := by
+  obtain ⟨h1, h2⟩ := (C13.inInt64_iff i).1 h
+  have hn := ofInt_nearest i (by omega)
+  have hf := hn.finite
+  have hi := ofInt_rounds i
+  have hu := rounds_mono (by decide) (show i ≤ 9223372036854775808 by omega) hi (ofInt_rounds 9223372036854775808) hf
+    (by rw [ofInt_two63]; rfl)
+  have hl := rounds_mono (by decide) (show -9223372036854775808 ≤ i by omega) (ofInt_rounds (-9223372036854775808)) hi
+    (by rw [ofInt_neg_two63]; rfl) hf
+  rw [ofInt_two63] at hu
+  rw [ofInt_neg_two63] at hl
+  have e1 : num (.fin false (2 ^ 52) 11) = 9223372036854775808 := by decide +kernel
+  have e2 : num (.fin true (2 ^ 52) 11) = -9223372036854775808 := by decide +kernel
+  have e3 : den (.fin false (2 ^ 52) 11) = 1 := by decide +kernel
+  have e4 : den (.fin true (2 ^ 52) 11) = 1 := by decide +kernel
+  rw [e1, e3] at hu
+  rw [e2, e4] at hl
+  refine ⟨hn, ?_, ?_⟩ <;> omega
+
+theorem sum_below_threshold {nA nB : Int} {dA dB : Nat} (pA : 0 < dA) (pB : 0 < dB)
+    (a1 : -(9223372036854775808 * (dA : Int)) ≤ nA) (a2 : nA ≤ 9223372036854775808 * (dA : Int))
+    (b1 : -(9223372036854775808 * (dB : Int)) ≤ nB) (b2 : nB ≤ 9223372036854775808 * (dB : Int)) :
+    (nA * (dB : Int) + nB * (dA : Int)).natAbs < (2 ^ 1024 - 2 ^ 970) * (dA * dB) ∧
+    (nA * (dB : Int) - nB * (dA : Int)).natAbs < (2 ^ 1024 - 2 ^ 970) * (dA * dB) := by
+  have qA : (0 : Int) ≤ (dA : Int) := by omega
+  have qB : (0 : Int) ≤ (dB : Int) := by omega
+  have x2 := Int.mul_le_mul_of_nonneg_right a2 qB
+  have x1 := Int.mul_le_mul_of_nonneg_right a1 qB
+  have y2 := Int.mul_le_mul_of_nonneg_right b2 qA
+  have y1 := Int.mul_le_mul_of_nonneg_right b1 qA
+  rw [Int.neg_mul, Int.mul_assoc] at x1 y1
+  rw [Int.mul_assoc] at x2 y2
+  rw [Int.mul_comm (dB : Int) (dA : Int)] at y1 y2
+  have hP : (0 : Int) < (dA : Int) * (dB : Int) := Int.mul_pos (by omega) (by omega)
+  have hc : ((dA * dB : Nat) : Int) = (dA : Int) * (dB : Int) := Int.natCast_mul dA dB
+  generalize nA * (dB : Int) = X at *
+  generalize nB * (dA : Int) = Y at *
+  generalize (dA : Int) * (dB : Int) = P at *
+  generalize dA * dB = Pn at *
+  constructor <;> omega
+
+theorem prod_below_threshold {nA nB : Int} {dA dB : Nat} (pA : 0 < dA) (pB : 0 < dB)
+    (a1 : -(9223372036854775808 * (dA : Int)) ≤ nA) (a2 : nA ≤ 9223372036854775808 * (dA : Int))
+    (b1 : -(9223372036854775808 * (dB : Int)) ≤ nB) (b2 : nB ≤ 9223372036854775808 * (dB : Int)) :
+    (nA * nB).natAbs < (2 ^ 1024 - 2 ^ 970) * (dA * dB) := by
+  have hA : nA.natAbs ≤ 9223372036854775808 * dA := by omega
+  have hB : nB.natAbs ≤ 9223372036854775808 * dB := by omega
+  have hm := Nat.mul_le_mul hA hB
+  rw [Nat.mul_mul_mul_comm] at hm
+  rw [Int.natAbs_mul]
+  have hP : 0 < dA * dB := Nat.mul_pos pA pB
+  generalize nA.natAbs * nB.natAbs = M at *
+  generalize dA * dB = P at *
+  omega
+
+/-- the exact integer result of `l op r`: `/` truncates toward zero, `%` takes the sign of the dividend -/
+def exactZ : BinOp → Int → Int → Int
+  | .add, l, r => l + r
+  | .sub, l, r => l - r
+  | .mul, l, r => l * r
+  | .div, l, r => Int.tdiv l r
+  | .mod, l, r => Int.tmod l r
+  | _, _, _ => 0
+
+/-- `x` is the IEEE-754 double operation `a op b` (`+ − * /`) on finite doubles: the exact rational result, correctly
+    rounded (`Rounds`: nearest, ties to even) -/
+def FloatOp : BinOp → F64 → F64 → F64 → Prop
+  | .add, a, b, x => Rounds (num a * (den b : Int) + num b * (den a : Int)) (den a * den b) x
+  | .sub, a, b, x => Rounds (num a * (den b : Int) - num b * (den a : Int)) (den a * den b) x
+  | .mul, a, b, x => Rounds (num a * num b) (den a * den b) x
+  | .div, a, b, x => Rounds (quotNum a b) (quotDen a b) x
+  | _, _, _, _ => False
+
+/-- `float64(MinInt64) / float64(-1)` is the double `2^63` -/
+theorem minInt64_div_neg_one :
+    F64.div (F64.ofInt (-9223372036854775808)) (F64.ofInt (-1)) = .fin false (2 ^ 52) 11 := by decide +kernel
+
+/-- a truncated quotient of two int64 values leaves the int64 range only for `MinInt64 / -1` -/
+theorem tdiv_overflow_only (l r : Int) (hl : Item.inInt64 l = true) (hr : Item.inInt64 r = true)
+    (h : Item.inInt64 (Int.tdiv l r) = false) : l = -9223372036854775808 ∧ r = -1 := by
+  obtain ⟨l1, l2⟩ := (C13.inInt64_iff l).1 hl
+  obtain ⟨r1, r2⟩ := (C13.inInt64_iff r).1 hr
+  have hq : ¬ (-9223372036854775808 ≤ Int.tdiv l r ∧ Int.tdiv l r ≤ 9223372036854775807) := by
+    intro hc; rw [(C13.inInt64_iff _).2 hc] at h; cases h
+  have hab := Int.natAbs_tdiv l r
+  have hge : 9223372036854775808 ≤ (Int.tdiv l r).natAbs := by omega
+  rw [hab] at hge
+  have hdiv : 9223372036854775808 ≤ l.natAbs / r.natAbs := hge
+  have hr0 : 0 < r.natAbs := by
+    apply Nat.pos_of_ne_zero
+    intro h0
+    rw [h0, Nat.div_zero] at hdiv
+    omega
+  have hmul := (Nat.le_div_iff_mul_le hr0).1 hdiv
+  have hr1 : r.natAbs = 1 := by
+    apply Classical.byContradiction
+    intro hne
+    have : 2 ≤ r.natAbs := by omega
+    have := Nat.mul_le_mul_left 9223372036854775808 this
+    omega
+  rw [hr1] at hmul
+  have hlv : l = -9223372036854775808 := by omega
+  refine ⟨hlv, ?_⟩
+  rcases Int.natAbs_eq r with e | e
+  · rw [hr1] at e
+    have : r = 1 := e
+    subst this
+    rw [Int.tdiv_one] at hq
+    omega
+  · rw [hr1] at e; exact e
+
+set_option exponentiation.threshold 2000 in
+/-- **C13 for two integers — no silent wrap in binary arithmetic.**  For all int64 operands and `op ∈ {+ − * / %}`
+    (`r ≠ 0` for `/ %`) `execMathOp` returns either the exact integer result — exactly when that lies in the int64
+    range — or, when it does not, the *finite* double that is the correctly rounded operation on `float64(l)`,
+    `float64(r)` (themselves the nearest doubles): never a wrapped integer, never an error.  `%` is always exact. -/
+theorem no_silent_wrap_binary (l r : Int) (hl : Item.inInt64 l = true) (hr : Item.inInt64 r = true) (op : BinOp)
+    (hop : op = .add ∨ op = .sub ∨ op = .mul ∨ op = .div ∨ op = .mod)
+    (hr0 : op = .div ∨ op = .mod → r ≠ 0) :
+    (Item.inInt64 (exactZ op l r) = true ∧ mathOp (.int l) (.int r) op = .ok (.int (exactZ op l r))) ∨
+    (Item.inInt64 (exactZ op l r) = false ∧ op ≠ .mod ∧
+      ∃ x, mathOp (.int l) (.int r) op = .ok (.flt x) ∧ x.isFinite = true ∧
+        Nearest l 1 (F64.ofInt l) ∧ Nearest r 1 (F64.ofInt r) ∧ FloatOp op (F64.ofInt l) (F64.ofInt r) x) := by
+  obtain ⟨nl, l1, l2⟩ := ofInt_int64_bound l hl
+  obtain ⟨nr, r1, r2⟩ := ofInt_int64_bound r hr
+  have fl := nl.finite
+  have fr := nr.finite
+  have dl := den_pos (F64.ofInt l)
+  have dr := den_pos (F64.ofInt r)
+  rcases hop with rfl | rfl | rfl | rfl | rfl
+  · cases hfit : Item.inInt64 (exactZ .add l r) with
+    | true => exact Or.inl ⟨rfl, C13.mathOp_int_exact_add l r hfit⟩
+    | false =>
+      refine Or.inr ⟨rfl, by decide, F64.add (F64.ofInt l) (F64.ofInt r), ?_, ?_, nl, nr, ?_⟩
+      · rw [C13.int_int, C13.int64Math_overflows l r .add hfit]; rfl
+      · exact (rounds_nearest (add_correctly_rounded _ _ fl fr) (sum_below_threshold dl dr l1 l2 r1 r2).1).finite
+      · exact add_correctly_rounded _ _ fl fr
+  · cases hfit : Item.inInt64 (exactZ .sub l r) with
+    | true => exact Or.inl ⟨rfl, C13.mathOp_int_exact_sub l r hfit⟩
+    | false =>
+      refine Or.inr ⟨rfl, by decide, F64.sub (F64.ofInt l) (F64.ofInt r), ?_, ?_, nl, nr, ?_⟩
+      · rw [C13.int_int, C13.int64Math_overflows l r .sub hfit]; rfl
+      · exact (rounds_nearest (sub_correctly_rounded _ _ fl fr) (sum_below_threshold dl dr l1 l2 r1 r2).2).finite
+      · exact sub_correctly_rounded _ _ fl fr
+  · cases hfit : Item.inInt64 (exactZ .mul l r) with
+    | true => exact Or.inl ⟨rfl, C13.mathOp_int_exact_mul l r hfit⟩
+    | false =>
+      refine Or.inr ⟨rfl, by decide, F64.mul (F64.ofInt l) (F64.ofInt r), ?_, ?_, nl, nr, ?_⟩
+      · rw [C13.int_int, C13.int64Math_overflows l r .mul hfit]; rfl
+      · exact (rounds_nearest (mul_correctly_rounded _ _ fl fr) (prod_below_threshold dl dr l1 l2 r1 r2)).finite
+      · exact mul_correctly_rounded _ _ fl fr
+  · have hr' : r ≠ 0 := hr0 (Or.inl rfl)
+    cases hfit : Item.inInt64 (exactZ .div l r) with
+    | true => exact Or.inl ⟨rfl, C13.mathOp_div_trunc l r hr' hfit⟩
+    | false =>
+      obtain ⟨rfl, rfl⟩ := tdiv_overflow_only l r hl hr hfit
+      have hB : F64.ofInt (-1) = .fin true (2 ^ 52) (-52) := by decide +kernel
+      refine Or.inr ⟨rfl, by decide, F64.div (F64.ofInt (-9223372036854775808)) (F64.ofInt (-1)), ?_,
+        by rw [minInt64_div_neg_one]; rfl, nl, nr, ?_⟩
+      · rw [C13.int_int, C13.int64Math_overflows _ _ .div hfit, hB]
+        unfold floatMath
+        simp only [feq_zero_false true (2 ^ 52) (-52) (by decide), Bool.false_eq_true, if_false]
+        rfl
+      · show Rounds _ _ _
+        rw [hB]
+        exact div_correctly_rounded _ fl true (2 ^ 52) (-52) (by decide)
+  · have hr' : r ≠ 0 := hr0 (Or.inr rfl)
+    have hfit : Item.inInt64 (Int.tmod l r) = true := by
+      obtain ⟨a1, a2⟩ := (C13.inInt64_iff l).1 hl
+      obtain ⟨b1, b2⟩ := (C13.inInt64_iff r).1 hr
+      have e1 := Int.natAbs_tmod l r
+      have e2 := Nat.mod_le l.natAbs r.natAbs
+      have e3 := Nat.mod_lt l.natAbs (show 0 < r.natAbs by omega)
+      apply (C13.inInt64_iff _).2
+      omega
+    exact Or.inl ⟨hfit, C13.mathOp_mod_trunc l r hr' hfit⟩
+
+/-- the double fallback can never be ±Inf or NaN: whatever `execMathOp` returns for two int64 operands (any operator,
+    any divisor) passes the finiteness check of `execBinaryMathExpr` — an integer overflow is never turned into the
+    "numeric value out of range" error either -/
+theorem int_int_result_finite (l r : Int) (hl : Item.inInt64 l = true) (hr : Item.inInt64 r = true) (op : BinOp)
+    (v : Item) (h : mathOp (.int l) (.int r) op = .ok v) : nonFiniteItem v = false := by
+  by_cases hop : op = .add ∨ op = .sub ∨ op = .mul ∨ op = .div ∨ op = .mod
+  · by_cases hr0 : op = .div ∨ op = .mod → r ≠ 0
+    · rcases no_silent_wrap_binary l r hl hr op hop hr0 with ⟨_, e⟩ | ⟨_, _, x, e, hx, _⟩
+      · rw [e] at h; cases h; rfl
+      · rw [e] at h; cases h
+        cases x <;> simp [F64.isFinite] at hx
+        simp [nonFiniteItem, F64.isInf, F64.isNaN]
+    · have hz : (op = .div ∨ op = .mod) ∧ r = 0 := by
+        refine ⟨Classical.byContradiction fun hn => hr0 fun hd => absurd hd hn, Classical.byContradiction fun hn => hr0 fun _ => hn⟩
+      obtain ⟨hd, rfl⟩ := hz
+      rcases hd with rfl | rfl <;>
+        (rw [C13.int_int, C13.int64Math_fits _ _ _ (by simp [exactInt]; rfl)] at h
+         simp [integerMath, liftI, Except.map] at h)
+  · rw [C13.int_int] at h
+    cases op <;> simp at hop <;>
+      (rw [C13.int64Math_fits _ _ _ rfl] at h; simp [integerMath, liftI, Except.map] at h)
+
 /-! ### non-vacuity (kernel evaluation) -/
 
 namespace Examples
@@ -333,6 +547,28 @@ example : F64.mul (b 0x8000000000000000) (b 0x4014000000000000) = b 0x8000000000
 
 /-- 1/3 -/
 example : F64.div (b 0x3FF0000000000000) (b 0x4008000000000000) = b 0x3FD5555555555555 := by decide +kernel
+
+/-- a decidable reading of "the result is the double `x`" (`Item` has no `DecidableEq`) -/
+def fltIs (r : Except MathErr Item) (x : F64) : Bool :=
+  match r with
+  | .ok (.flt y) => decide (y = x)
+  | _ => false
+
+theorem fltIs_sound {r : Except MathErr Item} {x : F64} (h : fltIs r x = true) : r = .ok (.flt x) := by
+  unfold fltIs at h
+  split at h
+  · rw [of_decide_eq_true h]
+  · cases h
+
+/-- two integers whose exact result leaves int64: MaxInt64 + 1 = 2^63, MinInt64 − 1 = −2^63, MinInt64 / −1 = 2^63,
+    MaxInt64 * MaxInt64 = 2^126 (all as doubles; the operands are converted first), MinInt64 % −1 = 0 (an integer) -/
+example : mathOp (.int 9223372036854775807) (.int 1) .add = .ok (.flt (b 0x43E0000000000000)) := by rfl
+example : mathOp (.int (-9223372036854775808)) (.int 1) .sub = .ok (.flt (b 0xC3E0000000000000)) := by rfl
+example : mathOp (.int (-9223372036854775808)) (.int (-1)) .div = .ok (.flt (b 0x43E0000000000000)) :=
+  fltIs_sound (by decide +kernel)
+example : mathOp (.int 9223372036854775807) (.int 9223372036854775807) .mul = .ok (.flt (b 0x47D0000000000000)) := by rfl
+example : mathOp (.int (-9223372036854775808)) (.int (-1)) .mod = .ok (.int 0) := by rfl
+example : mathOp (.int 9223372036854775807) (.int (-1)) .mul = .ok (.int (-9223372036854775807)) := by rfl
 
 end Examples
 
